@@ -4,7 +4,7 @@ from __future__ import annotations
 import ast
 
 from sa.pyfront import call_name
-from . import scopes, lib_gatefn, lib_guards, lib_err, lib_sweep, lib_mem
+from . import scopes, lib_gatefn, lib_guards, lib_err, lib_sweep, lib_mem, lib_py, lib_kind
 from sa.cfront import LIB_TUS
 
 LEVEL = "other"
@@ -58,3 +58,8 @@ def run(ctx):
     ctx.ob(rule, "load_tables|ll", "ts.load_tables(tables._ll_tables" in src or "load_tables(tables._ll_tables" in src, tm.loc(lt),
            "TreeSequence.load_tables hands the low-level tables to _tskit.TreeSequence.load_tables")
     lib_mem.c_lints(ctx, ctx.program(), scopes.lib_scope("C02"))
+    # Python: the text / dict / file entry points hand the caller's data to the gate unchanged
+    ps = scopes.py_scope("C02")
+    lib_py.unused_params(ctx, py, mods=("trees", "tables"), only=ps)
+    lib_kind.py_lints(ctx, py, mods=("trees", "tables"), only=ps)
+    lib_kind.py_tokenise_siblings(ctx, py)
